@@ -321,8 +321,8 @@ def cli_ledger_jobs(prop, tier, rnd):
             if good:
                 pools[s_] = good
     jobs = []
-    for i in range(36 if q else 400):
-        assets = {f"B{j + 1}": rnd.choice(pools[names[(i + j) % len(names)]]) for j in range(1 + i % 2)}
+    for i in range(48 if q else 400):
+        assets = {f"B{j + 1}": rnd.choice(pools[names[(i + j) % len(names)]]) for j in range(1 + (i % 3 > 0))}      # two runs in three process two assets in one process
         country = ["us", "generic", "us", "es", "jp", "ie"][i % 6] if prop == "C05" else ["us", "generic"][i % 2]
         method, sched = None, None
         if country in ("us", "generic"):
@@ -392,9 +392,9 @@ def attach_truncated(results, traces):
         cd = (r["res"].get("computed") or {}).get(name)
         k = len(r["job"]["assets"][name])
         if r["res"]["exit"] != 0 or cd is None or cd.get("fr_all") is None:
-            t["lines"].append({"a": "Obs", "k": k, "from": common.MIN_DAY, "to": common.MAX_DAY, "neg": False, "status": "other", "acct": 0, "ex": True})
+            t["lines"].append({"a": "Obs", "k": k, "from": common.MIN_DAY, "to": common.MAX_DAY, "neg": False, "status": "other", "acct": 0, "ex": True, "trunc": True})
         else:
-            obs = {"a": "Obs", "k": k, "from": common.MIN_DAY, "to": common.MAX_DAY, "neg": False, "status": "ok", "acct": 0, "ex": bool(cd.get("ex", True))}
+            obs = {"a": "Obs", "k": k, "from": common.MIN_DAY, "to": common.MAX_DAY, "neg": False, "status": "ok", "acct": 0, "ex": bool(cd.get("ex", True)), "trunc": True}
             obs.update({key: cd[key] for key in ("fr", "lab", "yr", "bal", "ins", "outs", "intras", "tev", "ppu", "sold")})
             t["lines"].append(obs)
         t["meta"]["runs"].append({"cli": r["job"].get("tag", ""), "asset": name, "args": r["job"]["args"], "truncated_to": k})
